@@ -176,9 +176,8 @@ def signature(job, label, kind, diff, dim, a, b):
     return f"{job.sub}:{label}:{diff}:{dim}"
 
 
-def scenario_plan(ctx):
+def scenario_plan(ctx, rng):
     """[(kind, seed, params)] for this tier"""
-    rng = ctx.rng
     plan = []
     nd = ctx.n(1, 9)
     for k in range(nd):
@@ -399,6 +398,8 @@ def check_sort(ctx, sets, label="sort"):
         if ranks is not None:
             table = ranks
     ctx.extra["sort_hash_mode"] = mode
+    if mode != "libstdc++-murmur":
+        ctx.log(f"note: hash values for the comparator model: {mode}")
     cases, agree_cases, idx = [], [], []
     for k, (orders, outs) in enumerate(raw):
         keys = sorted({(r[0], r[1]) for r in outs[0]})
@@ -552,6 +553,7 @@ def check_writer(ctx, n, label="writer"):
 
 # ============================================================================ driver
 def run(ctx):
+    plan = scenario_plan(ctx, random.Random(ctx.rng.randrange(2 ** 62)))
     # --- L2 first (fast, in-process)
     sets = [
         [("a", 0, [100, 200], 1), ("b", 0, [100], 2), ("c", 0, [100, 150, 300], 3), ("a", 1, [], 4), ("e", 0, [50], 5),
@@ -592,7 +594,23 @@ def run(ctx):
                             [{"samples": wraw[i][0], "orders": wraw[i][1]} for i in wbad])
 
     # --- L1: differential runs of the real CLI
-    differential(ctx, scenario_plan(ctx))
+    ctx.log("scenarios: " + json.dumps(plan))
+    differential(ctx, plan)
+    report_masked_l2(ctx)
+
+
+def report_masked_l2(ctx):
+    """The framework reports an L2-only breakage itself, but only when no violation with a failing input
+    exists; the genuine order-dependence findings of this property would mask it, so say it here."""
+    explained = any(v["signature"].startswith("readset-sort:") for v in ctx.violations)
+    if ctx.l2 and not explained and any(v["found_input"] for v in ctx.violations):
+        names = ", ".join(d["name"] for d in ctx.l2)
+        ctx.violation("correspondence:" + names,
+                      f"model correspondence no longer checks ({names}): the C16 theorems do not speak about this code; "
+                      "the search found no input on which the property text itself fails through this mechanism",
+                      {"kind": "l2", "broken_correspondence": [d["name"] for d in ctx.l2],
+                       "disagreeing_cases": [dict(name=d["name"], n=d["n"], cases=d["cases"][:5]) for d in ctx.l2]},
+                      found_input=False)
 
 
 def replay(ctx, data):
@@ -610,5 +628,7 @@ def replay(ctx, data):
             if any(o != raw[0][1][0] for o in raw[0][1][1:]):
                 ctx.violation("readset-sort:insertion-order", f"ReadSet.sort depends on the insertion order: {raw[0][1]}",
                               data)
+    elif data.get("kind") == "l2":
+        run(ctx)
     else:
         run(ctx)
